@@ -667,6 +667,9 @@ class World:
                 if spec.get("cancel"):
                     w.fired("ack_cancelled")
                     raise asyncio.CancelledError()     # the broker connection dropped its pending futures
+                if spec.get("fail"):
+                    w.fired("ack_fail")
+                    raise SimFault("acknowledgement failed")
                 if delay:
                     w.fired("ack_delay")
                     await asyncio.sleep(delay / 1e6)
@@ -676,6 +679,9 @@ class World:
 
         def ack() -> None:
             w.rec("ack_call", d.id)
+            if spec.get("fail"):
+                w.fired("ack_fail")
+                raise SimFault("acknowledgement failed")
             d.acked = True
             w.rec("ack_done", d.id)
         return ack
